@@ -347,6 +347,9 @@ func kCheck(r *Run, cases []*space.Case, procs string, timeoutSec int) int {
 		return 2
 	}
 	r.phase("generate+build")
+	if r.Tier == "thorough" {
+		timeoutSec = 4 * 3600 // a worker that is still exploring is not an error
+	}
 	lines, errs := r.Mod.RunHarness(bin, 16, []string{"--prop", procs, "--tier", r.Tier, "--seed", fmt.Sprint(r.Seed)}, timeoutSec)
 	r.HarnessErrs = append(r.HarnessErrs, errs...)
 	r.phase("explore")
